@@ -45,6 +45,9 @@ def configs(tier):
                         continue
                     out.append({'kind': 'from_sparse', 'ns': ns, 'ncl': ncl, 'nreq': nreq, 'trail': trail})
     out.append({'kind': 'from_sparse', 'ns': 0, 'ncl': 2, 'nreq': 2, 'trail': 0})
+    # the same column table used for a second request (the caller's table must not be consumed)
+    for ns, ncl in ((1, 2), (2, 2)):
+        out.append({'kind': 'from_sparse', 'ns': ns, 'ncl': ncl, 'nreq': 1, 'trail': 0, 'nreq2': 2})
     NT = 3 if quick else 4
     for rows in (False, True):
         for cols in (False, True):
@@ -98,6 +101,13 @@ def _req(e, nreq, hi):
     return req
 
 
+def _req2(e, nreq, hi):
+    req = [e.int('rr%d' % c, 0, hi) for c in range(nreq)]
+    for a, b in itertools.combinations(req, 2):
+        e.assume(a != b)
+    return req
+
+
 def _dense_oracle(colrow, datafn, ch):
     """value for requested channel ch given a column row (list of ids) and datafn(k) -> element"""
     r = SymReal(0)
@@ -122,10 +132,17 @@ def run_config(cfg, e):
             req = _req(e, nreq, 5)
             as_list = (ns + nreq) % 2 == 0
             chan = list(req) if as_list else snp.ndarray(snp._fromlist(req, (nreq,)), 'int64')
+            req2 = _req2(e, cfg['nreq2'], 5) if cfg.get('nreq2') else None
+            req1 = req
             e.case_builder = lambda ev: {'kind': kind, 'shape': list(shape), 'data': ev(flat),
-                                         'cols': [ev(r) for r in rows], 'req': ev(req)}
+                                         'cols': [ev(r) for r in rows], 'req': ev(req1),
+                                         'req2': None if req2 is None else ev(req2)}
             try:
                 out = snp.asarray(mod.from_sparse(data, cols, chan))
+                if req2 is not None:
+                    # second request on the same objects: it is the one that is checked
+                    out = snp.asarray(mod.from_sparse(data, cols, snp.ndarray(snp._fromlist(req2, (len(req2),)), 'int64')))
+                    req, nreq = req2, len(req2)
             except Exception as ex:
                 e.fail('exception %r' % (ex,))
             e.prove(out.shape == (ns, nreq) + shape[2:], 'shape %s' % (out.shape,))
@@ -325,8 +342,13 @@ def replay(case):
         data = np.array(case['data'], dtype=np.float64).reshape(shape)
         cols = np.array(case['cols'], dtype=np.int32).reshape(shape[:2])
         req = case['req']
+        cols0 = cols.copy()
         try:
             out = mod.from_sparse(data, cols, np.array(req, dtype=np.int64))
+            if case.get('req2') is not None:
+                req = case['req2']
+                out = mod.from_sparse(data, cols, np.array(req, dtype=np.int64))
+                cols = cols0
         except Exception as ex:
             return 'from_sparse raised %r' % (ex,)
         want = np.zeros((shape[0], len(req)) + shape[2:])
